@@ -1,9 +1,34 @@
 use cv::engine::*;
 use cv::props;
+use std::process::Command;
 
 fn usage() -> ! {
     eprintln!("usage: cv check <ID> [quick|thorough]\n       cv replay <ID> <file>");
     std::process::exit(2);
+}
+
+fn tier_of(arg: Option<&String>) -> Tier {
+    match arg.map(|s| s.as_str()).or(std::env::var("VERIF_TIER").ok().as_deref()) {
+        Some("thorough") => Tier::Thorough,
+        _ => Tier::Quick,
+    }
+}
+
+fn seed() -> u64 {
+    std::env::var("VERIF_SEED").ok().and_then(|s| s.trim().parse::<i64>().ok()).map(|v| v as u64).unwrap_or(1)
+}
+
+/// Watchdog: a hang is never a violation. Generous bounds; exit 2.
+fn watchdog(tier: Tier) {
+    let secs = std::env::var("VERIF_WATCHDOG_S").ok().and_then(|s| s.parse().ok()).unwrap_or(match tier {
+        Tier::Quick => 1800u64,
+        Tier::Thorough => 6 * 3600,
+    });
+    std::thread::spawn(move || {
+        std::thread::sleep(std::time::Duration::from_secs(secs));
+        eprintln!("INCONCLUSIVE: watchdog — no result after {secs} s (a hang is reported as inconclusive, never as a violation)");
+        std::process::exit(2);
+    });
 }
 
 fn main() {
@@ -13,25 +38,76 @@ fn main() {
     }
     install_recording_panic_hook();
     match args[1].as_str() {
+        // parent: runs the check in a child process so that an abort of the process (stack overflow,
+        // double panic, abort()) is observed instead of taking the check down
         "check" => {
             let id = args[2].clone();
-            let tier = match args.get(3).map(|s| s.as_str()).or(std::env::var("VERIF_TIER").ok().as_deref()) {
-                Some("thorough") => Tier::Thorough,
-                _ => Tier::Quick,
+            let tier = tier_of(args.get(3));
+            watchdog(tier);
+            let exe = std::env::current_exe().expect("current_exe");
+            let status = Command::new(&exe).args(["check-inner", &id, tier.name()]).status();
+            let status = match status {
+                Ok(s) => s,
+                Err(e) => {
+                    eprintln!("INCONCLUSIVE: cannot start the check process: {e}");
+                    std::process::exit(2);
+                }
             };
-            let seed: u64 = std::env::var("VERIF_SEED").ok().and_then(|s| s.trim().parse::<i64>().ok()).map(|v| v as u64).unwrap_or(1);
-            let mut ctx = Ctx::new(&id, tier, seed);
+            match status.code() {
+                Some(c) if c < 128 => std::process::exit(c),
+                other => {
+                    eprintln!("the check process of {id} died abnormally ({:?}, {status})", other);
+                    if id == "C01" {
+                        std::process::exit(cv::props::c01::isolate_abort(&exe, tier, seed()));
+                    }
+                    eprintln!("INCONCLUSIVE property={id} : the harness process was killed (abort / stack overflow in the code under test?). Totality is C01's business; run bin/check C01.");
+                    std::process::exit(2);
+                }
+            }
+        }
+        "check-inner" => {
+            let id = args[2].clone();
+            let tier = tier_of(args.get(3));
+            let mut ctx = Ctx::new(&id, tier, seed());
             if !props::run(&mut ctx) {
                 eprintln!("unknown property {id}");
                 std::process::exit(2);
             }
             std::process::exit(ctx.finish());
         }
+        // run the C01 oracle on one stored case; exit 0 = fine, 1 = violation (panic caught); an abort kills the process
+        "c01-single" => {
+            let text = std::fs::read_to_string(&args[2]).unwrap_or_default();
+            let v: serde_json::Value = serde_json::from_str(&text).unwrap_or(serde_json::Value::Null);
+            let mut st = Stats::new();
+            let mut obs = Obs::new(&mut st);
+            match props::c01::replay("", &v, &mut obs) {
+                Ok(Verdict::Pass) => std::process::exit(0),
+                Ok(Verdict::Fail(m)) => {
+                    println!("{m}");
+                    std::process::exit(1)
+                }
+                _ => std::process::exit(2),
+            }
+        }
         "replay" => {
             if args.len() < 4 {
                 usage();
             }
             let id = args[2].clone();
+            if id == "C01" && std::env::var("CV_REPLAY_INNER").is_err() {
+                // isolate: an aborting case must not take the replay driver down silently
+                let exe = std::env::current_exe().expect("current_exe");
+                let st = Command::new(&exe).args(["replay", &id, &args[3]]).env("CV_REPLAY_INNER", "1").status();
+                match st.ok().and_then(|s| s.code()) {
+                    Some(c) if c < 128 => std::process::exit(c),
+                    _ => {
+                        println!("replay property=C01: the process ABORTED on this case (not a panic: stack overflow / abort)");
+                        println!("VIOLATION property=C01 replay={}", args[3]);
+                        std::process::exit(1);
+                    }
+                }
+            }
             let text = std::fs::read_to_string(&args[3]).unwrap_or_else(|e| {
                 eprintln!("cannot read {}: {e}", args[3]);
                 std::process::exit(2)
